@@ -401,7 +401,7 @@ func c18State(c *Ctx, reach map[*ssa.Function][]*ssa.Function) {
 	r.Check(len(bad) == 0 && n > 0, "R18-state", "search code keeps no state across calls", "", "", strings.Join(bad, "; "))
 
 	// the frozen exception's justification: Hook.Search resets the evaluator first, on every path
-	hook := c.find("cmd/sargon/sargon", "Hook", "Search")
+	hook := forwardedBody(c.find("cmd/sargon/sargon", "Hook", "Search"))
 	reset := c.find("cmd/sargon/sargon", "Points", "Reset")
 	if hook != nil && reset != nil {
 		for _, f := range []string{"side0", "brdc0"} {
